@@ -150,7 +150,8 @@ fn c11(seed: u64, thorough: bool) -> Scenario {
             } else if roll < 7 {
                 // one pure insertion: only the blocks that contain the new line are modified
                 if let Some(l) = g.pick_insert_line(i) {
-                    g.world.files[i].diff = FileDiff::Insert { line: l, renamed_from: None };
+                    g.world.files[i].diff = FileDiff::Insert { line: l, renamed_from: None, edit: LineEdit::Inserted };
+                    g.vary_edit(i);
                     g.maybe_rename(i);
                 }
             }
@@ -731,7 +732,8 @@ fn c14(seed: u64, thorough: bool) -> Scenario {
                 g.world.files[i].diff = FileDiff::Added;
             } else if roll < 7 {
                 if let Some(l) = g.pick_insert_line(i) {
-                    g.world.files[i].diff = FileDiff::Insert { line: l, renamed_from: None };
+                    g.world.files[i].diff = FileDiff::Insert { line: l, renamed_from: None, edit: LineEdit::Inserted };
+                    g.vary_edit(i);
                     g.maybe_rename(i);
                 }
             }
@@ -1019,7 +1021,8 @@ fn c15(seed: u64, thorough: bool) -> Scenario {
                 g.world.files[i].diff = FileDiff::Added;
             } else if roll < 6 {
                 if let Some(l) = g.pick_insert_line(i) {
-                    g.world.files[i].diff = FileDiff::Insert { line: l, renamed_from: None };
+                    g.world.files[i].diff = FileDiff::Insert { line: l, renamed_from: None, edit: LineEdit::Inserted };
+                    g.vary_edit(i);
                     g.maybe_rename(i);
                 }
             } else if roll < 7 && !g.world.files[i].unwalkable {
